@@ -331,8 +331,18 @@ def build_node(x, ctx):
     if t == "comp":
         c = stix2.CompositeDataSource()
         kids = [build_node(m, ctx) for m in x["ms"]]
-        for k in kids:
+        # "late": k -- the members from position k on are attached only after the whole source tree (the parent
+        # composite / the Environment over this composite) has been constructed
+        late = x.get("late")
+        now = kids if late is None else kids[:late]
+        for k in now:
             c.add_data_source(k.ds)
+        if late is not None:
+            rest = [k.ds for k in kids[late:]]
+            if x.get("late_bulk"):
+                ctx.deferred.append(lambda c=c, rest=rest: c.add_data_sources(rest))
+            else:
+                ctx.deferred.append(lambda c=c, rest=rest: [c.add_data_source(d) for d in rest])
         if af:
             c.filters.add(af)
         return Node(c, c, None, kids)
@@ -347,7 +357,10 @@ def build_node(x, ctx):
             k = build_node(x["source"], ctx)
             kids.append(k)
             source = k.ds
-        env = stix2.Environment(store=store, source=source)
+        if x.get("sink") and store is None:
+            env = stix2.Environment(source=source, sink=stix2.MemorySink())
+        else:
+            env = stix2.Environment(store=store, source=source)
         for f in af:
             env.add_filter(f)
         return Node(env, env.source, None, kids)
@@ -355,7 +368,11 @@ def build_node(x, ctx):
 
 
 def build_src(x, ctx):
+    ctx.deferred = []
     n = build_node(x, ctx)
+    for act in ctx.deferred:
+        act()
+    ctx.deferred = []
     return n.obj, n.ds
 
 
@@ -379,7 +396,11 @@ def nav_arg(r):
 def run_c18(case, ctx):
     """steps: reads (optionally `at` a member path), `addf` / `rmf` (attach / detach a filter at a path), `add`
     (later content for the store under a leaf); reads yield one token each, the other steps none"""
+    ctx.deferred = []
     root = build_node(case["src"], ctx)
+    for act in ctx.deferred:          # members attached after construction
+        act()
+    ctx.deferred = []
     out = []
     for r in case.get("steps", case.get("reads", [])):
         op = r["op"]
